@@ -118,15 +118,21 @@ def _run_chunk(chunk):
                 symptom="no-termination",
                 detail=f"case did not finish within {_CASE_TIMEOUT}s",
             )
-        except Exception:  # harness bug inside check(): surface as harness error
-            res = {
-                "ok": False,
-                "cls": "harness-exception",
-                "nontrivial": False,
-                "symptom": "harness-exception",
-                "detail": traceback.format_exc()[-3000:],
-                "harness": True,
-            }
+        except HarnessError:
+            res = {"ok": False, "cls": "harness-exception", "nontrivial": False, "symptom": "harness-exception",
+                   "detail": traceback.format_exc()[-3000:], "harness": True}
+        except Exception as exc:
+            # An exception that escaped a check. If it was raised inside the library under test (or below
+            # it) the library did something the check did not anticipate: that is a failing case, not a
+            # reason to abort the run. Only an exception raised by the harness's own code is a harness error.
+            tb = traceback.extract_tb(exc.__traceback__)
+            lib = [fr for fr in tb if "/mxlpy/" in fr.filename]
+            if lib:
+                res = outcome(False, "unexpected-exception", symptom=f"unexpected-exception:{type(exc).__name__}:{lib[-1].name}",
+                              detail=f"{type(exc).__name__}: {str(exc)[:300]} (raised in {lib[-1].filename.split('/mxlpy/')[-1]}:{lib[-1].name}) | case={canon_json(case)[:500]}")
+            else:
+                res = {"ok": False, "cls": "harness-exception", "nontrivial": False, "symptom": "harness-exception",
+                       "detail": traceback.format_exc()[-3000:], "harness": True}
         finally:
             signal.alarm(0)
         out.append((idx, res))
